@@ -54,7 +54,7 @@ INJECT_CHILD = {
 }
 # crate-level shared modules (reference semantics, symbolic constructors, native shim)
 INJECT_CRATE = {
-    "chess/src/lib.rs": ["shim.rs", "refspec.rs", "anyboard.rs"],
+    "chess/src/lib.rs": ["shim.rs", "refspec.rs", "anyboard.rs", "lemmas.rs"],
     "chess_base/src/lib.rs": ["shim.rs"],
 }
 GUARD = "any(kani, owlchess_verif_replay)"
@@ -375,6 +375,8 @@ def _file_hash(path):
 def harness_file_of(ob):
     """the /verif/kani file that holds the harness of a Kani / native obligation"""
     h = ob.get("harness") or ob.get("test") or ""
+    if h.startswith("verif_"):
+        return h.split("::")[0][len("verif_"):] + ".rs"
     mod = h.split("::verif_kani::")[0]
     pre = "chess_base/src/" if ob.get("pkg") == "owlchess_base" else "chess/src/"
     rel = pre + mod.replace("::", "/") + ".rs"
